@@ -59,6 +59,15 @@ func c03Trees(c *h.Ctx) []tv.Node {
 		trees = append(trees, tv.Node{Tag: tv.GenTag(r), Kind: tv.KBytes, S: r.Bytes(l)})
 	}
 	trees = append(trees, tv.Node{Tag: 0x420001, Kind: tv.KStruct})
+	// large encodings: nested structures around a payload that makes the total size cross the
+	// powers of two at which a growing output buffer is reallocated (512 B ... 128 KiB)
+	for i, sz := range []int{500, 1000, 2040, 4090, 8180, 16370, 33000, 70000, 140000}[:c.Pick(7, 9)] {
+		r := c.Rng.Fork(uint64(800000 + i))
+		inner := tv.Node{Tag: 0x420008, Kind: tv.KStruct, Kids: []tv.Node{
+			tv.GenLeaf(r, tv.KInt), {Tag: 0x420043, Kind: tv.KBytes, S: r.Bytes(sz)}, tv.GenLeaf(r, tv.KText)}}
+		mid := tv.Node{Tag: 0x420040, Kind: tv.KStruct, Kids: []tv.Node{tv.GenLeaf(r, tv.KEnum), inner, {Tag: 0x420055, Kind: tv.KText, S: []byte("tail")}}}
+		trees = append(trees, tv.Node{Tag: 0x420078, Kind: tv.KStruct, Kids: []tv.Node{mid, tv.GenLeaf(r, tv.KLong)}})
+	}
 	for i := 0; i < c.Pick(500, 6000); i++ {
 		trees = append(trees, tv.Gen(c.Rng.Fork(uint64(1000000+i)), 1+i%4))
 	}
